@@ -332,6 +332,8 @@ class Rewriter:
         if part == 'sig' and '&dyn Fn' in text:
             text = text.replace('&dyn Fn', '&impl Fn')
             self.log.append(('R2', fid, '&dyn Fn -> &impl Fn'))
+        if part == 'body' and 'thread::scope' in text:
+            text = self.r8(text, fid)
         if part == 'body' and 'println!' in text:
             # R17  diagnostic `println!( .. );` statements are dropped (formatting / stdout are outside the verifier)
             def r17(mm):
@@ -397,6 +399,44 @@ class Rewriter:
                 raise ExtractError('%s: @replace %s anchor |%s| occurs %d times (need exactly 1)' % (spec.origin, rule, old, cnt))
             text = text.replace(old, new)
             self.log.append((rule, fid, '%s => %s' % (old, new)))
+        return text
+
+    def r8(self, text, fid):
+        """R8: sequentialise scoped threads.
+        std::thread::scope(|s| { B }) -> { B };  s.spawn(|| { C }) -> { C };  h.join().unwrap() -> h;  num_cpus::get() -> num_cpus_get()
+        ASSUMPTION (not proof): scoped threads that capture only shared borrows of immutable data and are all joined
+        compute what their bodies compute when run one after the other in spawn order."""
+        m = rsparse.mask_code(text)
+        mm = re.search(r'std::thread::scope\(\s*\|\s*(\w+)\s*\|\s*\{', text)
+        if not mm or not m[mm.start()]:
+            raise ExtractError('R8: unexpected shape of thread::scope')
+        sv = mm.group(1)
+        ob = mm.end() - 1
+        cb = rsparse.match_close(text, m, ob)
+        cp = rsparse.skip_ws(text, m, cb + 1, len(text))
+        if text[cp] != ')':
+            raise ExtractError('R8: unexpected shape of thread::scope (closing)')
+        text = text[:mm.start()] + text[ob:cb + 1] + text[cp + 1:]
+        self.log.append(('R8', fid, 'thread::scope(|%s| {..}) -> {..}' % sv))
+        while True:
+            m = rsparse.mask_code(text)
+            sm = re.search(r'\b' + re.escape(sv) + r'\.spawn\(\s*\|\|\s*\{', text)
+            if not sm:
+                break
+            ob = sm.end() - 1
+            cb = rsparse.match_close(text, m, ob)
+            cp = rsparse.skip_ws(text, m, cb + 1, len(text))
+            if text[cp] != ')':
+                raise ExtractError('R8: unexpected shape of spawn')
+            text = text[:sm.start()] + text[ob:cb + 1] + text[cp + 1:]
+            self.log.append(('R8', fid, 'spawn(|| {..}) -> {..}'))
+        n = text.count('.join().unwrap()')
+        text = text.replace('.join().unwrap()', '')
+        if n:
+            self.log.append(('R8', fid, 'join().unwrap() dropped (%d)' % n))
+        if 'num_cpus::get()' in text:
+            text = text.replace('num_cpus::get()', 'num_cpus_get()')
+            self.log.append(('R8', fid, 'num_cpus::get() -> num_cpus_get()'))
         return text
 
     def r3(self, text, place):
